@@ -93,9 +93,14 @@ def is_tracked_reply(d, tr):
             and int.from_bytes(d.data[20:24], 'big') == tr['mid'])
 
 
-def run_retrans(kind, lost_req, lost_rep, ticks, horizon=45.0):
-    """returns observations of one deterministic run"""
+def run_retrans(kind, lost_req, lost_rep, ticks, horizon=45.0, oneway=False):
+    """returns observations of one deterministic run.  oneway: everything A sends is lost while B keeps talking
+    (its own DPD probes and their retransmissions reach A)"""
     w, tr = build_request(kind)
+    if oneway:
+        for i, sb in enumerate(w.endpoints['B'].controller.ike_sas):
+            if sb.state == State.ESTABLISHED:
+                sb.start_dpd_at = w.clock + 1.5      # B's own liveness check falls into A's retransmission period
     sa_spi = tr['spi_i']
     tx, accepted_at = [], None
     nreq = nrep = 0
@@ -110,6 +115,9 @@ def run_retrans(kind, lost_req, lost_rep, ticks, horizon=45.0):
             if guard > 200:
                 raise HarnessError('network does not drain')
             d = w.net[0]
+            if oneway and d.sender == 'A' and not is_tracked_request(d, tr):
+                w.step(('drop', d.id))
+                continue
             if is_tracked_request(d, tr):
                 if d.id not in seen:
                     seen.add(d.id)
@@ -187,6 +195,9 @@ def retrans_cases():
                 if any(i in lp for i in lr) and not ck.quick:
                     pass
                 yield (kind, tuple(sorted(lr)), tuple(sorted(lp)), tuple(fine), True)
+        if kind not in ('init', 'init-cookie', 'init-invalid-ke', 'auth'):
+            # one-way loss: none of A's datagrams arrives, B's own probes keep arriving at A
+            yield (kind, tuple(range(n + 2)), (), tuple(fine), True, True)
         for ticks in coarse:
             for lr in (frozenset(), frozenset(range(n)), frozenset({0}), frozenset({0, 1})):
                 for lp in (frozenset(), frozenset(range(n)), frozenset({0})):
@@ -194,8 +205,9 @@ def retrans_cases():
 
 
 def work_retrans(case):
-    kind, lr, lp, ticks, fine = case
-    obs = run_retrans(kind, set(lr), set(lp), list(ticks))
+    kind, lr, lp, ticks, fine = case[:5]
+    oneway = len(case) > 5 and case[5]
+    obs = run_retrans(kind, set(lr), set(lp), list(ticks), oneway=oneway)
     res = judge_retrans(kind, obs, fine)
     outcome = (len(obs['tx']), obs['accepted_at'] is not None, bool(obs['still_held']))
     return [(sig, msg) for sig, msg in res], outcome
@@ -215,6 +227,36 @@ def idle_world(a_lifetime=100000, b_lifetime=100000, a_dpd=DPD, b_dpd=3600, a_hi
     finally:
         CTX.uniform_hi = False
     return w
+
+
+def run_dpd_childless():
+    """an established IKE_SA whose only CHILD_SA was deleted is still probed after the DPD interval (and given up when the
+    peer is gone)"""
+    w = idle_world()
+    a = w.endpoints['A']
+    c = a.controller.ike_sas[0].child_sas[0]
+    w.step(('expire', 'A', bytes(c.inbound_spi), True))
+    w.deliver_all()
+    if a.controller.ike_sas[0].child_sas or a.controller.ike_sas[0].state != State.ESTABLISHED:
+        raise HarnessError('could not produce an established IKE_SA without CHILD_SA')
+    w.step(('crash', 'B'))
+    t0 = w.clock
+    probe_at = gone_at = None
+    for k in range(1, DPD + 30):
+        w.step(('tick', 1.0))
+        for d in list(w.net):
+            if probe_at is None and d.sender == 'A' and d.data[18] == 37 and not d.data[19] & 0x20:
+                probe_at = w.clock - t0
+            w.step(('drop', d.id))
+        if gone_at is None and not a.controller.ike_sas:
+            gone_at = w.clock - t0
+    out = []
+    if probe_at is None or probe_at > DPD + 1.001:
+        out.append(('childless:no-probe', 'an established IKE_SA without CHILD_SA did not probe its (dead) peer within dpd+1 s '
+                    '(probe at %s)' % probe_at))
+    if gone_at is None or gone_at > DPD + 22.001:
+        out.append(('childless:dead-peer-not-detected', 'IKE_SA without CHILD_SA gone at %s, allowed %d' % (gone_at, DPD + 22)))
+    return out
 
 
 def run_dpd(offset, peer):
@@ -352,6 +394,9 @@ def judge_lifetime(obs, a_hi, peer):
 
 def work_dpd(case):
     kind = case[0]
+    if kind == 'dpd-childless':
+        res = run_dpd_childless()
+        return res, ('childless', not res)
     if kind == 'dpd':
         _, off, peer = case
         obs = run_dpd(off, peer)
@@ -366,6 +411,7 @@ def dpd_cases():
         yield ('dpd', off, 'answering')
     yield ('dpd', 0, 'silent')
     yield ('dpd', 0, 'silent-with-noise')
+    yield ('dpd-childless', 0, 'silent')
     for a_hi in (False, True):
         for peer in ('answering', 'silent', 'collides'):
             yield ('life', a_hi, peer)
@@ -473,7 +519,7 @@ def main():
         evaluations += 1
         outcomes[('retrans', case[0], outcome)] += 1
         for sig, msg in res:
-            ck.violation('retrans:%s:%s:%s' % (sig, case[0], 'fine' if case[4] else 'coarse'),
+            ck.violation('retrans:%s:%s:%s%s' % (sig, case[0], 'fine' if case[4] else 'coarse', ':one-way-loss' if len(case) > 5 else ''),
                          '%s, request kind %s, lost request transmissions %s, lost replies %s, ticks %s' % (
                              msg, case[0], list(case[1]), list(case[2]), list(case[3])), dict(part='retrans', case=case))
     samples.append(dict(part='retransmission', case=rc[37]))
